@@ -160,18 +160,44 @@ PairDefs(k) ==
   ELSE << [name |-> "Root", kind |-> "message",
            fields |-> << MFld(1, "f", PairA(k).t, FALSE), MFld(2, "g", PairB(k).t, FALSE) >>] >>
 
+\* "mixed" records: 3-5 fields whose shapes are drawn pseudo-randomly (by Seed) from the whole shape
+\* universe, alternately a struct and a message - interactions between arbitrary shapes in one record
+AllShapes == Depth0 \o Depth1 \o Depth2
+MixHash(a, b) == (a * 7919 + b * 104729 + Seed * 31337 + ((a * b) % 251)) % 65521
+NMix == IF Tier = "thorough" THEN 150 ELSE 48
+MixN(m) == 3 + (m % 3)
+MixShape(m, j) == AllShapes[(MixHash(m, j) % Len(AllShapes)) + 1]
+RECURSIVE DedupeDefs(_, _)
+DedupeDefs(ds, acc) == IF ds = <<>> THEN acc
+                       ELSE IF \E i \in 1..Len(acc) : acc[i].name = ds[1].name THEN DedupeDefs(Tail(ds), acc)
+                       ELSE DedupeDefs(Tail(ds), Append(acc, ds[1]))
+MixSup(m) == DedupeDefs(FlattenSeq([j \in 1..MixN(m) |-> MixShape(m, j).sup]), <<>>)
+MixDefs(m) ==
+  IF m % 2 = 0
+  THEN << [name |-> "Root", kind |-> "struct", ro |-> (m % 4 = 0),
+           fields |-> [j \in 1..MixN(m) |-> Fld("f" \o ToString(j), MixShape(m, j).t)]] >>
+  ELSE << [name |-> "Root", kind |-> "message",
+           fields |-> [j \in 1..MixN(m) |-> MFld(2 * j - 1, "f" \o ToString(j), MixShape(m, j).t, m % 5 = 0 /\ j = 2)]] >>
+
 NShapes == Len(Shapes)
 NCtx == Len(Ctxs)
 NBase == NShapes * NCtx
-NSchemas == NBase + NPairSchemas
-IsPair(sid) == sid > NBase
-ShapeOf(sid) == IF IsPair(sid)
+NPairEnd == NBase + NPairSchemas
+NSchemas == NPairEnd + NMix
+IsMix(sid) == sid > NPairEnd
+IsPair(sid) == sid > NBase /\ sid <= NPairEnd
+ShapeOf(sid) == IF IsMix(sid)
+                THEN [t |-> MixShape(sid - NPairEnd, 1).t, sup |-> MixSup(sid - NPairEnd),
+                      tag |-> "mix" \o ToString(sid - NPairEnd) \o "<" \o MixShape(sid - NPairEnd, 1).tag \o "," \o MixShape(sid - NPairEnd, 2).tag \o ",...>"]
+                ELSE IF IsPair(sid)
                 THEN [t |-> PairA(sid - NBase - 1).t, sup |-> PairSup(sid - NBase - 1),
                       tag |-> "pair<" \o PairA(sid - NBase - 1).tag \o "," \o PairB(sid - NBase - 1).tag \o ">"]
                 ELSE Shapes[((sid - 1) \div NCtx) + 1]
-CtxOf(sid) == IF IsPair(sid) THEN (IF (sid - NBase - 1) % 2 = 0 THEN "pairstruct" ELSE "pairmsg")
+CtxOf(sid) == IF IsMix(sid) THEN (IF (sid - NPairEnd) % 2 = 0 THEN "mixstruct" ELSE "mixmsg")
+              ELSE IF IsPair(sid) THEN (IF (sid - NBase - 1) % 2 = 0 THEN "pairstruct" ELSE "pairmsg")
               ELSE Ctxs[((sid - 1) % NCtx) + 1]
-SchemaOf(sid) == IF IsPair(sid) THEN PairSup(sid - NBase - 1) \o PairDefs(sid - NBase - 1)
+SchemaOf(sid) == IF IsMix(sid) THEN MixSup(sid - NPairEnd) \o MixDefs(sid - NPairEnd)
+                 ELSE IF IsPair(sid) THEN PairSup(sid - NBase - 1) \o PairDefs(sid - NBase - 1)
                  ELSE ShapeOf(sid).sup \o RootDefs(ShapeOf(sid).t, CtxOf(sid))
 RootT == R("Root")
 
